@@ -42,7 +42,7 @@ SLY_FUNCS = (("Parser.parse", "sly.yacc.Parser.parse"), ("Lexer.tokenize", "sly.
 
 
 def families(facts):
-    fams = ["sly.defuse[Parser.parse]", "sly.defuse[Lexer.tokenize]", "sly.config", "hooks", "frame.globals", "frame.fields", "init.instances"]
+    fams = ["sly.defuse[Parser.parse]", "sly.defuse[Lexer.tokenize]", "sly.config", "hooks", "frame.globals", "frame.fields", "frame.memo", "init.instances"]
     fams += [f"frame.action[{r['name']}]" for r in facts.raw["lexer"]["rules"] if r.get("action")]
     fams += [f"frame.prod[{p['number']}]" for p in facts.raw["parser"]["productions"] if p.get("func")]
     return fams + ["bounded.hashseed", "bounded.histories", "canary"]
@@ -147,6 +147,8 @@ def run_family(facts, fam, tier):
                  "reason": f"stale read of self.state found at {bad[:2]}" if good else "canary NOT refuted"}]
     if fam == "frame.globals":
         return frame_globals(facts, t0)
+    if fam == "frame.memo":
+        return frame_memo(facts, t0)
     if fam == "frame.fields":
         # no instance field is both written (outside __init__) and read by repository members of the lexer / parser: nothing a
         # callback leaves on the instance can reach a later call (the SLY driver reads only what it wrote in the same call)
@@ -267,6 +269,56 @@ def frame_globals(facts, t0):
             n += 1
             out += scan_function(facts, m, fq, t0)
     out.append(res("C20:parsing-modules:frame.globals[cover]", "frame.globals", n > 40, t0, f"{n} functions of the parsing modules scanned"))
+    return out
+
+
+def frame_memo(facts, t0):
+    """A function of the parsing modules wrapped by a memoising decorator (functools.lru_cache / cache) keeps process-level state
+    that outlives every call.  That is history-independent only if the cached values are immutable: a cached *mutable* result
+    (a list, dict or set that callers extend) is shared by all later calls -- of every instance."""
+    out = []
+    n = 0
+    seen = set()
+
+    def members():
+        for cq, cf in facts.classes.items():
+            if cq.startswith(PARSE_MODULES):
+                for name, m in cf["members"].items():
+                    if m.get("source") and str(m.get("module", "")).startswith(PARSE_MODULES):
+                        yield f"{cq}.{name}", m
+        for fq, m in facts.functions.items():
+            if str(m.get("module", "")).startswith(PARSE_MODULES) and m.get("source"):
+                yield fq, m
+    for label, m in members():
+        if m.get("sha256") in seen:
+            continue
+        seen.add(m.get("sha256"))
+        n += 1
+        w = m.get("wrapper") or {}
+        memo = bool(w.get("builtin")) and "lru_cache" in str(w.get("qualname", "")).lower() or "functools" in str(w.get("qualname", "")) and w.get("builtin")
+        # decorators visible in the source as well (e.g. @cache, @lru_cache(...), @cached_property)
+        try:
+            tree = facts.fdef(m)
+            decos = [pyast.unparse(d) for d in getattr(tree, "decorator_list", [])]
+        except Exception:
+            tree, decos = None, []
+        memo = memo or any(x in d for d in decos for x in ("lru_cache", "functools.cache", "cached_property")) or any(d in ("cache",) for d in decos)
+        if not memo:
+            continue
+        mutable = False
+        why = ""
+        if tree is not None:
+            ret = pyast.unparse(tree.returns) if getattr(tree, "returns", None) is not None else ""
+            if any(x in ret for x in ("List", "list", "Dict", "dict", "Set", "set")):
+                mutable, why = True, f"return annotation {ret}"
+            for nd in pyast.walk(tree):
+                if isinstance(nd, pyast.Return) and isinstance(nd.value, (pyast.List, pyast.Dict, pyast.Set, pyast.ListComp, pyast.DictComp, pyast.SetComp)):
+                    mutable, why = True, "returns a list / dict / set display"
+        out.append(res(f"C20:{label}:frame.memo", "frame.memo", not mutable, t0,
+                       "memoised, results immutable (shared values cannot be changed by a caller)" if not mutable else
+                       f"memoised by {w.get('qualname') or decos} and its result is mutable ({why}): every later call, on every instance, shares the object",
+                       {"source": src_of(m), "witness": {"function": label}}))
+    out.append(res("C20:parsing-modules:frame.memo[cover]", "frame.memo", n > 40, t0, f"{n} functions of the parsing modules scanned for memoising decorators"))
     return out
 
 
@@ -449,7 +501,8 @@ BATTERY = ["a eq 1", "a eq 1 and b ne 'x' or not (c lt 2)", "a in (1, 2, 3)", "x
            "-a add 3 mul (b sub 1) div 2 mod 5 ge 0", "d gt 2020-01-02T10:20:30Z", "x eq duration'P1DT2H'", "a eq 1 ? 2",
            "Name eq 1", "a eq Name", "matchesPattern(a, 'x')", "matchespattern(a, 'x')", "Geo.Length(x) gt 1", "geo.length(x) gt 1",
            "a eq 1 and", "xs/all(x: x/Name eq Name)", "now() gt d", "now( ) gt d",
-           "geo.distance(a, b) lt 5", "distance(a, b) lt 5", "geo.contains(a, 'x')", "contains(a, 'x')", "substring(a, 1)", "geo.substring(a, 1, 2, 3)"]
+           "geo.distance(a, b) lt 5", "distance(a, b) lt 5", "geo.contains(a, 'x')", "contains(a, 'x')", "substring(a, 1)", "geo.substring(a, 1, 2, 3)",
+           "x/b/c eq 1", "y/b/c/e eq 2", "a/b/c eq null", "xs/any(x: x/b/c/d eq 1)", "q/b eq 1"]
 
 
 def bounded_hashseed(facts, tier):
@@ -487,7 +540,24 @@ def run(lexer, parser, text):
         return repr(parser.parse(lexer.tokenize(text)))
     except Exception as ex:
         return type(ex).__name__ + ":" + str(ex)
-fresh = {t: run(ODataLexer(), ODataParser(), t) for t in BATTERY}
+# the reference for every input comes from a process that has parsed nothing else (state shared at module or class level would
+# poison same-process "fresh" instances too)
+import subprocess, sys
+from concurrent.futures import ThreadPoolExecutor
+REF = """
+import sys
+from odata_query.grammar import ODataLexer, ODataParser
+t = sys.argv[1]
+try:
+    print(repr(ODataParser().parse(ODataLexer().tokenize(t))))
+except Exception as ex:
+    print(type(ex).__name__ + ":" + str(ex))
+"""
+def ref(t):
+    p = subprocess.run([sys.executable, "-c", REF, t], capture_output=True, text=True)
+    return p.stdout.rstrip("\n")
+with ThreadPoolExecutor(8) as ex:
+    fresh = dict(zip(BATTERY, ex.map(ref, BATTERY)))
 bad, n = [], 0
 for h in range(COUNT):
     lexer, parser = ODataLexer(), ODataParser()
@@ -531,7 +601,7 @@ def replay_spec(facts, r):
     if r.get("bounded") and r.get("native_script"):
         return {"native_script": r["native_script"], "input_text": r.get("bound"), "required": "same result as fresh instances / same digest"}
     w = r.get("witness") or {}
-    if r.get("clause") in ("frame", "frame.fields", "frame.globals", "frame.defuse", "frame.config", "post.raise", "own.fresh"):
+    if r.get("clause") in ("frame", "frame.fields", "frame.globals", "frame.memo", "frame.defuse", "frame.config", "post.raise", "own.fresh"):
         # a frame violation shows as a history dependence: search shared-instance histories natively
         seed = int(os.environ.get("VERIF_SEED", "0") or 0)
         script = f"BATTERY = {BATTERY!r}\nSEED = {seed}\nCOUNT = 3000\n" + HISTORIES
